@@ -1,6 +1,6 @@
 // qbrewrite: behaviour-preserving source rewrites used only to test the checker for false alarms
 // (tools/benign_rewrite.py).  Never part of a verdict.
-//   qbrewrite <src> -o <out> --mode swapcmp|negif|incr|notzero|zeronot -- <flags>
+//   qbrewrite <src> -o <out> --mode swapcmp|negif|incr|notzero|zeronot|trace -- <flags>
 #include "clang/AST/ASTConsumer.h"
 #include "clang/AST/ParentMapContext.h"
 #include "clang/AST/RecursiveASTVisitor.h"
@@ -26,7 +26,7 @@ struct Edit { SourceRange r; std::string text; };
 
 class V : public RecursiveASTVisitor<V> {
 public:
-  ASTContext &C; SourceManager &SM; std::vector<Edit> edits;
+  ASTContext &C; SourceManager &SM; std::vector<Edit> edits; std::vector<std::pair<SourceLocation, std::string>> ins;
   explicit V(ASTContext &c) : C(c), SM(c.getSourceManager()) {}
 
   bool plain(SourceRange r) {
@@ -93,6 +93,23 @@ public:
     }
     return true;
   }
+  bool VisitFunctionDecl(FunctionDecl *f) {
+    if (gMode != "trace" || !f->doesThisDeclarationHaveABody()) return true;
+    auto *body = dyn_cast<CompoundStmt>(f->getBody());
+    if (!body || !plain(body->getSourceRange())) return true;
+    // a harmless libc call at the start of every function
+    ins.push_back({body->getLBracLoc().getLocWithOffset(1), " (void)strlen(\"\");"});
+    return true;
+  }
+  bool VisitReturnStmt(ReturnStmt *r) {
+    if (gMode != "trace" || !r->getRetValue() || !plain(r->getSourceRange())) return true;
+    Expr *v = r->getRetValue();
+    if (!plain(v->getSourceRange()) || !v->getType()->isScalarType()) return true;
+    std::string t = text(v->getSourceRange());
+    if (t.empty()) return true;
+    edits.push_back({v->getSourceRange(), "((void)strlen(\"\"), " + t + ")"});
+    return true;
+  }
   bool VisitIfStmt(IfStmt *i) {
     if (gMode != "negif" || !i->getElse() || !plain(i->getSourceRange())) return true;
     if (isa<IfStmt>(i->getElse()) || i->getConditionVariable() || i->getInit()) return true;
@@ -130,6 +147,7 @@ public:
     }
     Rewriter R(SM, C.getLangOpts());
     for (auto &e : keep) { R.ReplaceText(e.r, e.text); gCount++; }
+    for (auto &i : v.ins) { R.InsertText(i.first, i.second); gCount++; }
     std::error_code ec;
     llvm::raw_fd_ostream os(gOut, ec);
     if (const RewriteBuffer *rb = R.getRewriteBufferFor(SM.getMainFileID())) rb->write(os);
